@@ -25,7 +25,8 @@ MANDATORY = ["CNB_TARGET_OS", "CNB_TARGET_ARCH", "CNB_TARGET_DISTRO_NAME", "CNB_
 LAUNCH = {"processes": [{"type": "web", "command": ["run"], "args": ["a b"], "default": True}], "labels": [["k", "v"]]}
 STORE = {"k": "v", "n": {"x": 1}}
 BUILD_SBOMS = [[], [["cdx", "{\"b\":1}"]], [["cdx", "{\"b\":1}"], ["syft", "{\"b\":2}"]]]
-LAUNCH_SBOMS = [[], [["spdx", "{\"l\":1}"]]]
+# the last set shares the cdx format with the build SBOM sets (same file extension, different files)
+LAUNCH_SBOMS = [[], [["spdx", "{\"l\":1}"]], [["cdx", "{\"l\":2}"], ["spdx", "{\"l\":1}"]]]
 SBOM_EXT = {"cdx": "cdx.json", "spdx": "spdx.json", "syft": "syft.json"}
 
 DETECT_BEH = ["pass", "pass_plan", "fail", "error"]
@@ -101,6 +102,13 @@ def all_cfgs(thorough):
                                         yield dict(base, beh=beh)
 
 
+def planpath_cfgs():
+    for pp in (1, 2, 3):
+        for beh in range(len(DETECT_BEH)):
+            for stale in (False, True):
+                yield {"phase": "detect", "arg0": 0, "argc": 2, "toml": "valid", "bpdir": True, "env": {k: True for k in MANDATORY}, "variant": False, "stale": stale, "beh": beh, "planpath": pp}
+
+
 def reaches(cfg):
     """Reference: does this configuration reach detect/build code?"""
     return (cfg["arg0"] in (0, 2) and cfg["argc"] == (2 if cfg["phase"] == "detect" else 3) and cfg["toml"] == "valid"
@@ -133,6 +141,20 @@ def judge(w, cfg):
         env["CNB_TARGET_ARCH_VARIANT"] = "v8"
     arg0 = ARG0[cfg["arg0"]].replace("PHASE", phase)
     full = [w.p("platform"), w.p("plan.toml")] if phase == "detect" else [w.p("layers"), w.p("platform"), w.p("bp_plan.toml")]
+    # the build plan path in other spellings: a bare file name and ./name (relative to the working
+    # directory = app dir), and a path whose directory does not exist
+    pp = cfg.get("planpath", 0)
+    plan_real = w.p("plan.toml")
+    if phase == "detect" and pp:
+        if pp in (1, 2):
+            full[1] = "plan.toml" if pp == 1 else "./plan.toml"
+            plan_real = w.p("app", "plan.toml")
+            if cfg["stale"]:
+                open(plan_real, "wb").write(STALE["plan.toml"])
+        else:
+            full[1] = w.p("nodir", "plan.toml")
+            plan_real = full[1]
+    path_of = lambda rel: plan_real if rel == "plan.toml" else w.p(rel)
     args = (full + ["extra1", "extra2"])[: cfg["argc"]]
     script = {}
     if phase == "detect":
@@ -154,10 +176,10 @@ def judge(w, cfg):
         spec["build_sboms"] = BUILD_SBOMS[bs]
         spec["launch_sboms"] = LAUNCH_SBOMS[ls]
         script["build"] = spec
-    before = {rel: read_bytes(w.p(rel)) for rel in OUTPUTS}
+    before = {rel: read_bytes(path_of(rel)) for rel in OUTPUTS}
     r = w.run(phase, script, arg0=arg0, args=args, env=env, bpdir=cfg["bpdir"])
     code = r.returncode
-    after = {rel: read_bytes(w.p(rel)) for rel in OUTPUTS}
+    after = {rel: read_bytes(path_of(rel)) for rel in OUTPUTS}
     marks = w.markers()
     n_phase = marks.count("detect") + marks.count("build")
     n_err = marks.count("on_error")
@@ -187,7 +209,13 @@ def judge(w, cfg):
         beh = DETECT_BEH[cfg["beh"]]
         if marks.count("detect") != 1:
             bad("detect-not-once", "detect was not called exactly once")
-        if beh in ("pass", "pass_plan"):
+        if beh == "pass_plan" and pp == 3:
+            # the plan cannot be written (its directory does not exist): a reported error
+            if code in (0, 100):
+                bad("unwritable-plan-not-reported", "the build plan could not be written but the exit status is 0 or 100")
+            if n_err != 1:
+                bad("on-error-not-once", f"error handler called {n_err} times")
+        elif beh in ("pass", "pass_plan"):
             if code != 0:
                 bad("detect-pass-exit", "detection passed but exit status is not 0")
             if n_err:
@@ -296,7 +324,7 @@ def run(ctx):
             print("DIFFERENCE:", what)
             res.violation(sig, what, {"config": cfg})
         return res.done()
-    cfgs = list(all_cfgs(ctx.thorough))
+    cfgs = list(all_cfgs(ctx.thorough)) + list(planpath_cfgs())
     # ownership of nondeterminism: the first configurations run twice must give identical outcomes
     probe = [run_cfg((i, c, ctx.scratch)) for i, c in enumerate(cfgs[:5])]
     probe2 = [run_cfg((i, c, ctx.scratch)) for i, c in enumerate(cfgs[:5])]
@@ -315,7 +343,7 @@ def run(ctx):
     res.cov("distinct_nontrivial", len(nontrivial))
     res.cov("distinct_outcomes", sorted(outcomes))
     res.cov("determinism_replays", 5)
-    res.cov("rule", "configurations = executable name (phase, other, path/phase, phase.bak) x argument count 0..4 x buildpack.toml (valid, api 0.9/0.11/1/missing, malformed, file missing, unknown key) x CNB_BUILDPACK_DIR x each mandatory CNB_TARGET_* variable x ARCH_VARIANT x behaviour (4 detect; 16 pass results x SBOM sets + error + layer error for build) x stale outputs; each run as a real process; non-trivial = configurations that reach the phase or deviate from a valid invocation in exactly one dimension")
+    res.cov("rule", "configurations = executable name (phase, other, path/phase, phase.bak) x argument count 0..4 x buildpack.toml (valid, api 0.9/0.11/1/missing, malformed, file missing, unknown key) x CNB_BUILDPACK_DIR x each mandatory CNB_TARGET_* variable x ARCH_VARIANT x behaviour (4 detect; 16 pass results x SBOM sets + error + layer error for build) x stale outputs; plus, for valid detect invocations, the plan path as a bare file name, ./name and a path in a missing directory x 4 behaviours; each run as a real process; non-trivial = configurations that reach the phase or deviate from a valid invocation in exactly one dimension")
     res.cov("bound", {"deviations_from_valid_invocation": "<=3 all behaviours" if not ctx.thorough else "full product for detect and for build up to 3 deviations; beyond that build behaviours {first,last}"})
     res.cov("exhaustive", True)
     res.sample(cfgs[0])
